@@ -82,6 +82,10 @@ func (c DateCodec) Write(w *avro.WriteBuf, p unsafe.Pointer) {
 	t := *(*time.Time)(p)
 	// TODO: wrangle this into Time.AppendFormat?
 	day := int32(t.Unix() / (60 * 60 * 24))
+	if t.Unix()%(60*60*24) < 0 {
+		// integer division truncates towards zero; dates before 1970 need the floor
+		day--
+	}
 
 	c.Int32Codec.Write(w, unsafe.Pointer(&day))
 }
